@@ -135,6 +135,9 @@ fn server_for_cli(id: &'static str, slot: Vec<(&'static str, String)>) -> Server
                 let mut big_transport = None;
                 if put("big").is_some() {
                     s.players = rv::gen_players(&mut Chooser::new(&[]), e.layout(), &[100]);
+                    // (two neighbours equal in every respect - clients still connecting: both must be printed)
+                    s.players[1] = s.players[0].clone();
+                    s.players[41] = s.players[40].clone();
                     s.rules = rv::gen_rules(&mut Chooser::new(&[]), &[150]);
                     s.info.players = 100;
                     let mut t = valve_seed_transport(e, &s);
